@@ -13,9 +13,10 @@ fn stored(storage: &StorageEngine, rel: &str) -> Vec<Tuple> {
 fn verif_witness() {
     let mut cases = 0usize;
     // batch shapes: (distinct tuples, repetitions of each)
-    let shapes: [(usize, usize); 9] = [(1, 1), (1, 2), (2, 2), (3, 1), (5, 3), (130, 2), (300, 1), (400, 2), (1500, 3)];
+    let shapes: [(usize, usize); 10] = [(1, 1), (1, 2), (2, 2), (3, 1), (5, 3), (130, 2), (300, 1), (400, 2), (1500, 3), (9000, 2)];
     for &(a_n, a_rep) in &shapes {
         for &(b_n, b_rep) in &[(1usize, 2usize), (3, 2), (200, 2), (700, 2)] {
+            if a_n > 5000 && b_n != 3 { continue; }
             let temp = tempfile::TempDir::new().unwrap();
             let mut config = crate::Config::default();
             config.storage.data_dir = temp.path().to_path_buf();
